@@ -107,8 +107,16 @@ def check_success(case):
         res.bad("C12:success:line-count", f"{natoms} atom lines for {nmodel} model atoms with {nmiss} unassigned")
     if nmiss:
         # e.g. PEOEPB models the N-terminal proline with one amine hydrogen: the second one is
-        # omitted and reported (C01's rule), the run itself is a success
+        # omitted and reported (C01's rule), the run itself is a success.  But an atom that the
+        # force field is KNOWN to cover (pinned support matrix) must not lose its parameters.
         res.label("success-with-unassigned-atoms")
+        from .. import ffmodel
+
+        gold = ffmodel.golden_support().get(ff, {})
+        lost = sorted({f"{getattr(a.residue, 'ffname', a.residue.name)}:{a.name}" for a in r.missing
+                       if a.name in gold.get(getattr(a.residue, "ffname", None) or "", [])})
+        if lost:
+            res.bad("C12:success:coverage-lost", f"{ff} is known to parameterise {lost[:6]} but left them unassigned")
     return res
 
 
